@@ -25,6 +25,7 @@ Inside an extract block the lines are annotation sub-directives:
    requires / ensures / decreases / recommends ... (contract text, spliced between signature and body; E2)
        a trailing `// [label]` names the clause (obligation name)
    @loop N            following lines: invariant/decreases text spliced before the N-th loop body (E3)
+   @loop-end N        following lines: ghost text inserted before the closing brace of the N-th loop's body
    @body              following lines: ghost text inserted right after the body's `{`
    @tail              following lines: ghost text inserted before the body's closing `}` (unit-returning fns)
    @before <literal>  following lines: ghost text inserted before the statement starting with <literal>
@@ -524,11 +525,14 @@ def split_opts(s):
 
 def parse_block(lines):
     """Annotation block of an extract directive -> dict"""
-    blk = {"contract": [], "loops": {}, "body": [], "tail": [], "before": [], "after": [], "rewrites": [], "sig": []}
+    blk = {"contract": [], "loops": {}, "loopends": {}, "body": [], "tail": [], "before": [], "after": [], "rewrites": [], "sig": []}
     cur = blk["contract"]
     for ln in lines:
         s = ln.strip()
-        if s.startswith("@loop"):
+        if s.startswith("@loop-end"):
+            n = int(s.split()[1])
+            cur = blk["loopends"].setdefault(n, [])
+        elif s.startswith("@loop"):
             n = int(s.split()[1])
             cur = blk["loops"].setdefault(n, [])
         elif s.startswith("@body"):
@@ -694,6 +698,17 @@ def transform_fn(text, opts, blk, log, what, in_trait_impl):
     # body annotations
     body = apply_rewrites(body, blk["rewrites"], log, what)
     # loops: process from last to first so offsets stay valid
+    if blk["loopends"]:
+        # ghost text right before the closing brace of the N-th loop's body (processed last-to-first)
+        offs = loops_in(body)
+        for n in sorted(blk["loopends"], reverse=True):
+            if n < 1 or n > len(offs):
+                raise ExtractError("ordinal-mismatch", f"{what}: loop {n} requested, body has {len(offs)} loops")
+            check_ghost(blk["loopends"][n], what)
+            e = match_close(mask(body), offs[n - 1])
+            ins = "\x01".join(l.rstrip() for l in blk["loopends"][n] if l.strip())
+            body = body[:e] + "\x01" + ins + "\x01" + body[e:]
+            log.append(f"ghost text inserted at the end of loop {n}'s body")
     if blk["loops"]:
         offs = loops_in(body)
         for n in sorted(blk["loops"], reverse=True):
